@@ -110,6 +110,12 @@ fn conc_event(name: &str, arg: &str, thread: &str) -> Option<Value> {
         ("sc:writer_recv", 0) => "Rv",
         ("ev:shutdown_begin", _) => "SdB",
         ("ev:shutdown_end", _) => "SdE",
+        ("ev:flush_begin", _) => "FlB",
+        ("ev:flush_end", _) => {
+            // the application thread's flush() has returned; what it then found in the file (record ids)
+            let seen: Vec<u64> = arg.split(',').filter_map(|x| x.parse().ok()).collect();
+            return Some(json!({"ev": "FlE", "p": p, "k": 0, "seen": seen}));
+        }
         _ => return None,
     };
     Some(json!({"ev": ev, "p": p, "k": arg.parse::<u64>().unwrap_or(0)}))
@@ -363,7 +369,45 @@ pub fn run(args: &[String]) {
                         h().take_points();
                         h().record.store(true, Ordering::SeqCst);
                     }
+                    // C04 under concurrency: while the threads log, the application thread calls flush() again and again and
+                    // reads the file each time flush() has returned (histories without rotation: one file that only grows)
+                    let stop_fl = Arc::new(std::sync::atomic::AtomicBool::new(false));
+                    let mut fl_thread = None;
+                    if tracing && sc["appflush"].as_bool().unwrap_or(false) && !cfg.rot {
+                        let hd = handle.clone();
+                        let stop = stop_fl.clone();
+                        let odir = dir.join(&cfg.subdir);
+                        let ocfg = cfg.clone();
+                        fl_thread = Some(
+                            std::thread::Builder::new()
+                                .name("app".to_string())
+                                .spawn(move || {
+                                    let mut k = 0u64;
+                                    while !stop.load(Ordering::SeqCst) {
+                                        k += 1;
+                                        ev_mark("ev:flush_begin", k);
+                                        hd.flush();
+                                        let o = obs::observe(&odir, &ocfg, None, false);
+                                        let mut ids: Vec<String> = Vec::new();
+                                        for f in o["files"].as_array().cloned().unwrap_or_default() {
+                                            for r in f["recs"].as_array().cloned().unwrap_or_default() {
+                                                ids.push(r[0].as_u64().unwrap_or(0).to_string());
+                                            }
+                                        }
+                                        if h().record.load(Ordering::SeqCst) {
+                                            h().points.lock().unwrap().push(("ev:flush_end".to_string(), ids.join(","), "app".to_string()));
+                                        }
+                                        std::thread::sleep(Duration::from_micros(300));
+                                    }
+                                })
+                                .unwrap(),
+                        );
+                    }
                     let (ret, blocked) = drive2(&sc, logger.clone(), rawarc.as_ref().map(|x| x.0.clone()));
+                    stop_fl.store(true, Ordering::SeqCst);
+                    if let Some(t) = fl_thread {
+                        let _ = t.join();
+                    }
                     drop(rawarc.take());
                     let r2 = catch_unwind(AssertUnwindSafe(|| {
                         ev_mark("ev:shutdown_begin", 0);
